@@ -57,6 +57,7 @@ def run(ctx):
                "delay/permutation/path dropping only on sides whose object ids are stable, as the property states",
                "virtual clock; ageing 0")
     ctx.model_check("SysMC", "MC_SysMC.cfg", "design: contract guards", workers=4)
+    sc.run_exemplars(ctx, CLAUSES, extra_sig=xsig)
     quick = ctx.tier == "quick"
     flavors = ["oid/oid", "path/oidf"] if quick else ["oid/oid", "path/oidf", "oidf/path", "path/path"]
     fams = [("m_one2", [1], 2, None, 120 if quick else None), ("m_two2", [1, 2], 2, None, 120 if quick else 4000)]
